@@ -510,7 +510,7 @@ def run(ctx):
                      'closing token: content before the first error is kept (C01 R01f)', 1)
     from . import c01 as _c01
     from .. import core as _core
-    _c01.run(_core.Proxy(ctx, 'R06j', ('R01f',)))
+    _core.run_proxied(ctx, _c01, 'R06j', ('R01f',))
 
     # ---- R06k: attributes attached to foreign objects on some paths only are read with a default
     ctx.rule('R06k', 'an attribute that is attached to an object of another class from outside (the legacy '
@@ -542,6 +542,12 @@ def run(ctx):
     if not attached:
         ctx.unknown('R06k', repo.mod('pylatexenc.macrospec._argumentsparser'), None,
                     'no externally attached marker attribute found', construct='attached attributes')
+
+    # ---- R06l (shared with C05 R05k)
+    ctx.rule('R06l', 'building or formatting a located error never raises: the source string is not indexed at the '
+                     'error position without an in-range fact (C05 R05k)', 0)
+    from . import c05 as _c05
+    _c05.error_text_indexing(ctx, 'R06l', repo)
 
     return 'other', (
         'Exception-escape analysis in the tolerant configuration (the tolerance check and the '
